@@ -131,6 +131,14 @@ VTT_PIECES = [
     ("<center>x", "<center>x", "unknown-tag-c-prefix"),
     ("<video>", "<video>", "unknown-tag-v-prefix"),
     ("<x>y</x>", "<x>y</x>", "unknown-tag"),
+    ("<b-side>", "<b-side>", "unknown-tag-known-prefix-then-punctuation"),
+    ("<i-beam>x", "<i-beam>x", "unknown-tag-known-prefix-then-punctuation"),
+    ("<u-turn>", "<u-turn>", "unknown-tag-known-prefix-then-punctuation"),
+    ("<v-neck>", "<v-neck>", "unknown-tag-known-prefix-then-punctuation"),
+    ("<c-3po>", "<c-3po>", "unknown-tag-known-prefix-then-punctuation"),
+    ("<lang-tag>", "<lang-tag>", "unknown-tag-known-prefix-then-punctuation"),
+    ("<rt/2>", "<rt/2>", "unknown-tag-known-prefix-then-punctuation"),
+    ("<ruby_red>", "<ruby_red>", "unknown-tag-known-prefix-then-punctuation"),
 ]
 LITERAL_PIECES = [
     ("word", "word", "plain"),
@@ -148,7 +156,8 @@ LITERAL_PIECES = [
 ]
 PIECES = {"dfxp": DFXP_PIECES, "sami": SAMI_PIECES, "webvtt": VTT_PIECES, "srt": LITERAL_PIECES, "microdvd": LITERAL_PIECES}
 BREAKS = {"dfxp": ["<br/>", "<br />", "<br></br>", "<br/>\n      "], "sami": ["<br>", "<br/>", "<BR>", "<br />\n"], "webvtt": ["\n"], "srt": ["\n"], "microdvd": ["|"]}
-JOINS = {"dfxp": [" ", "\n        "], "sami": [" ", "\n   "], "webvtt": [" "], "srt": [" "], "microdvd": [" "]}
+JOINS = {"dfxp": [" ", "\n        ", ""], "sami": [" ", "\n   ", ""], "webvtt": [" ", ""], "srt": [" "], "microdvd": [" "]}
+ADJ = {"dfxp": 2, "sami": 2, "webvtt": 1}  # index of the "" join: an inline tag that starts or ends inside a word
 
 
 def bounds(tier):
@@ -202,6 +211,10 @@ def read(fmt, doc):
                 cur = ""
         lines.append(cur)
         out.append([parsers.norm_line(l) for l in lines])
+        # the public text accessor must say the same as the nodes
+        via_get_text = [parsers.norm_line(l) for l in c.get_text().split("\n")]
+        if via_get_text != out[-1]:
+            out[-1] = ["get_text() disagrees with the nodes: " + repr(via_get_text) + " / " + repr(out[-1])]
     return out
 
 
@@ -217,17 +230,22 @@ def evaluate_raw(fmt, captions_pieces, brk_i, join_i, wrap_first):
         el, wl = [], []
         for line in cap:
             enc = ""
+            disp = ""
             for k, i in enumerate(line):
                 if k:
                     j = joins[(k - 1) % len(joins)]
                     enc += j
-                    if j != " ":
+                    disp += "" if j == "" else " "
+                    if j == "":
+                        classes.add("tag-inside-a-word")
+                    elif j != " ":
                         # a line end next to an inline element and a line end inside running text are different situations
                         inline = {"span", "nested-span", "tag"}
                         classes.add("source-line-wrap-next-to-inline-element" if (P[i][2] in inline or P[line[k - 1]][2] in inline) else "source-line-wrap-within-text")
                 enc += P[i][1]
+                disp += P[i][0]
             el.append(enc)
-            wl.append(parsers.norm_line(" ".join(P[i][0] for i in line)))
+            wl.append(parsers.norm_line(disp))
             classes |= {P[i][2] for i in line if P[i][2] != "plain"}
         enc_caps.append(el)
         want.append(wl)
@@ -368,6 +386,8 @@ def run_shard(d):
             for join_i in range(len(JOINS[fmt])):
                 if join_i and len(seq) < 2:
                     continue
+                if JOINS[fmt][join_i] == "":
+                    continue  # pieces directly adjacent: only plain text next to an inline tag (family below)
                 run([[list(seq)]], 0, join_i)
             if len(seq) == 1 and fmt in ("dfxp", "sami"):
                 run([[list(seq)]], 0, 0, True)
@@ -388,10 +408,19 @@ def run_shard(d):
                     run([[[0, 1, a]]], 0, pat)
                     run([[[a, 0, 1]]], 0, pat)
                     run([[[0, a, 1]]], 0, pat)
+        if fmt in ADJ:
+            # an inline tag that starts or ends inside a word: Abso<i>lutely</i>, H<i>2</i>O
+            for a in [i for i, p_ in enumerate(P) if p_[2] in ("span", "nested-span", "tag", "tag-class", "tag-lang", "tag-ruby")]:
+                run([[[0, a]]], 0, ADJ[fmt])
+                run([[[a, 0]]], 0, ADJ[fmt])
+                run([[[0, a, 1]]], 0, ADJ[fmt])
+                run([[[0, a, 1]], [[a, 1]]], 0, [ADJ[fmt], 0])
         for a in red:
             for b in red:
                 run([[[a, 0]], [[b], [1]]], 0, 0)
                 for join_i in range(1, len(JOINS[fmt])):
+                    if JOINS[fmt][join_i] == "":
+                        continue
                     run([[[a, 0], [b, 1]]], 0, join_i)
                     run([[[a, 0, b]], [[1, b]]], 0, join_i, True)
     return acc.result()
